@@ -106,6 +106,13 @@ type Explorer struct {
 }
 
 func (ex *Explorer) Run() {
+	// the hash-consing table and the query cache are per harness
+	termMu.Lock()
+	termTable = map[string]*Term{}
+	termMu.Unlock()
+	qcMu.Lock()
+	qcache = map[[2]uint64]Result{}
+	qcMu.Unlock()
 	ex.cond = sync.NewCond(&ex.mu)
 	ex.vioKeys = map[string]bool{}
 	ex.Labels = map[string]int{}
@@ -232,11 +239,32 @@ func (ex *Explorer) worker() {
 		ex.mu.Unlock()
 		return
 	}
-	defer solver.Close()
+	defer func() { solver.Close() }()
 	for {
 		prefix, ok := ex.take()
 		if !ok {
 			break
+		}
+		// long-lived incremental solver sessions grow without bound (cvc5
+		// reached 4 GB in 200k-path runs): recycle them between paths
+		if solver.Stats.Queries > 4000 {
+			ex.mu.Lock()
+			ex.Solver.add(solver.Stats)
+			ex.mu.Unlock()
+			solver.Close()
+			ns, err := NewSolver(ex.SolverName, ex.TimeoutMs, nil)
+			if err == nil {
+				solver = ns
+			} else {
+				solver.Stats = SolverStats{}
+			}
+		}
+		if ws.fb != nil && ws.fb.Stats.Queries > 1500 {
+			ex.mu.Lock()
+			ex.Solver.add(ws.fb.Stats)
+			ex.mu.Unlock()
+			ws.fb.Close()
+			ws.fb = nil
 		}
 		ex.runPath(solver, prefix, ws)
 		ex.done()
